@@ -286,7 +286,8 @@ func filterMethodCall(blockContext antlr.Tree) {
 
 func buildRestApiWithParameters(ctx *parser.MethodDeclarationContext) {
 	var formalParameter []parser.IFormalParameterContext
-	if parameterList, ok := ctx.FormalParameters().GetChild(1).(*parser.FormalParameterListContext); ok {
+	// the list stands behind a receiver parameter in `void f(A this, int a)`: ask the rule, not a position
+	if parameterList, ok := ctx.FormalParameters().(*parser.FormalParametersContext).FormalParameterList().(*parser.FormalParameterListContext); ok {
 		formalParameter = parameterList.AllFormalParameter()
 	}
 	for _, param := range formalParameter {
